@@ -389,6 +389,32 @@ func compWS(o *out, seed uint64, tier string) {
 			}
 		}
 	}
+	// 2i. blocks that END in a literal run whose length sits on a length-encoding boundary (15, 15+255,
+	//     15+2*255: the continuation bytes need their terminating byte), emitted by the Writer at HC and
+	//     fast levels: compressible text followed by incompressible bytes, every tail length around the
+	//     boundaries (the last match may end a few bytes before or after the text does), closed by Close
+	//     and by Flush
+	{
+		text := genData(3, 9, 3000)
+		for _, base := range []int{15, 270, 525} {
+			for d := -8; d <= 8; d++ {
+				if base+d < 1 {
+					continue
+				}
+				data := append(append([]byte{}, text...), r.bytes(base+d)...)
+				lvl := []int{512, 0, 2048}[(d+8)%3]
+				if d == 0 {
+					lvl = 512
+				}
+				a := fmt.Sprintf("A:bs=4,conc=%d,lvl=%d,bc=%d", 1+(d+8)%2, lvl, (d+8)/2%2)
+				ops := []string{a, "W:h:" + hx(data), "C"}
+				if d%2 == 0 && (d+8)%2 == 0 {
+					ops = []string{a, "W:h:" + hx(data), "F", "W:h:" + hx(text[:100]), "C"}
+				}
+				emit(&wsCase{ops: ops, wf: true, rdconc: 1}, "final-literal-run-on-a-length-boundary")
+			}
+		}
+	}
 	// 2g. a frame, Close, Reset, Close with nothing written (an EMPTY second frame: its content checksum is
 	//     XXH32 of the empty input whatever the hash object held before), pending bytes in the hash object
 	//     being those of a first frame whose length is not a multiple of 16
@@ -548,6 +574,12 @@ func compRS(o *out, seed uint64, tier string) {
 				iout = kv[4:]
 			}
 		}
+		if class == "source-fault-inside-skippable-frame" {
+			// the model skips a payload in one atomic step and does not say how many bytes had been
+			// consumed when the source failed inside it: that count is not compared (the verdict, the
+			// delivered bytes and the oracle are)
+			obs = strings.Replace(obs, " consumed=", " x_consumed=", 1)
+		}
 		o.emit("rs", c.fieldsO(cls, want)+fmt.Sprintf(" i_final=%s i_consumed=%s i_out=%s", ifin, icons, iout), obs, len(c.in) > 11)
 		o.count(class)
 	}
@@ -624,6 +656,67 @@ func compRS(o *out, seed uint64, tier string) {
 		}
 		for k := 1; k < len(x.f); k++ {
 			emit(&rsCase{in: x.f[:k], ops: readOps(), frag: 0, conc: 1 + 3*(k%2)}, "trunc", x.data, "trunc-every-prefix")
+		}
+	}
+	// legacy frames of SEVERAL short blocks (what Write; Flush; Write produces), cut at every position that is
+	// not a block boundary, read with a buffer that reaches beyond the complete blocks (the failing call has
+	// already delivered bytes), with small buffers and through WriteTo
+	for i := 0; i < 2*mult; i++ {
+		f := binary.LittleEndian.AppendUint32(nil, 0x184C2102)
+		var content []byte
+		bounds := map[int]bool{4: true}
+		ok := true
+		for b := 0; b < 3; b++ {
+			d := genData(1, r.intn(100), 200+r.intn(600))
+			z := make([]byte, lz4.CompressBlockBound(len(d)))
+			n, err := lz4.CompressBlock(d, z, nil)
+			if err != nil || n == 0 || n == len(content) {
+				ok = false // (n == len(content): the size word would read as the kernel trailer, finding F28)
+				break
+			}
+			f = binary.LittleEndian.AppendUint32(f, uint32(n))
+			f = append(f, z[:n]...)
+			content = append(content, d...)
+			bounds[len(f)] = true
+		}
+		if !ok {
+			continue
+		}
+		for k := 5; k < len(f); k++ {
+			if bounds[k] {
+				continue
+			}
+			ops := [][]string{{"RA:70000"}, {"RA:100"}, {"WT"}, {"RM"}}[k%4]
+			if k%16 == 3 {
+				ops = []string{"RA:70000"}
+			}
+			emit(&rsCase{in: f[:k], ops: ops, frag: 0, conc: 1 + 3*(k/4%2)}, "trunc", content, "trunc-legacy-multi-block")
+		}
+	}
+	// SEVERAL undecodable blocks in one frame with independent blocks, read concurrently: more than one
+	// worker fails (every failing worker closes its own channel; whoever drains the queue afterwards
+	// meets more than one closed channel), also back to back and as the last blocks of the frame
+	for i := 0; i < 6*mult; i++ {
+		bad := []byte{0x10, 'A', 0x00, 0x00, 0x50, 'a', 'b', 'c', 'd', 'e'} // a match at offset 0
+		var blocks []gblock
+		nb := 5 + r.intn(6)
+		b1 := 1 + r.intn(nb-2)
+		b2 := b1 + 1 + r.intn(nb-b1-1)
+		if i%3 == 0 {
+			b2 = b1 + 1
+		}
+		for b := 0; b < nb; b++ {
+			if b == b1 || b == b2 || (i%3 == 2 && b > b2) {
+				blocks = append(blocks, gblock{stored: bad})
+				continue
+			}
+			d := genData(1, r.intn(50), 100+r.intn(3000))
+			blocks = append(blocks, gblock{stored: d, raw: true, dec: d})
+		}
+		f := buildFrame(true, i%2 == 0, true, 4, -1, blocks, false)
+		for _, conc := range []int{2, 4, 1} {
+			emit(&rsCase{in: f, ops: []string{"WT"}, conc: conc}, "mut", nil, "several-undecodable-blocks")
+			emit(&rsCase{in: f, ops: []string{"RA:4096"}, conc: conc}, "mut", nil, "several-undecodable-blocks")
 		}
 	}
 	// single bit flips at every byte of small frames, plus splices (C05); the specification decides
@@ -754,6 +847,25 @@ func compRS(o *out, seed uint64, tier string) {
 		for _, ops := range [][]string{{"RA:1000"}, {"RA:4096"}, {"RA:65535"}, {"RM"}, {"WT"}, {"RA:65536"}} {
 			emit(&rsCase{in: fr, ops: ops, frag: 0, conc: 1}, "valid", content, label)
 		}
+		if firstLen > 65536 {
+			// a buffer of exactly the frame's block size: the large block is decoded straight into the
+			// caller's memory and is the last thing of that Read call; the runner scribbles over the buffer
+			// before the next call, so a window that merely points into it is lost
+			emit(&rsCase{in: fr, ops: []string{"RA:262144"}, frag: 0, conc: 1}, "valid", content, label)
+			emit(&rsCase{in: fr, ops: []string{fmt.Sprintf("RA:%d", firstLen)}, frag: 0, conc: 1}, "valid", content, label)
+		}
+	}
+	// a declared content size that is a lie (the Reader does not compare it with the content, but it must
+	// not ALLOCATE by it either): tiny frames announcing 5 MiB .. 2^63 bytes, through WriteTo into a
+	// destination that has a Grow method (bytes.Buffer), through Read, sequentially and concurrently
+	for _, sz := range []int64{5 << 20, 200 << 20, 1 << 30, (1 << 30) + 1, 1 << 40, 1<<63 - 1} {
+		blocks, content := depBlocks(r, 1, 65536)
+		f := buildFrame(true, false, true, 7, sz, blocks, false)
+		for _, ops := range [][]string{{"WT"}, {"S", "WT"}, {"RA:4096"}} {
+			for _, conc := range []int{1, 4} {
+				emit(&rsCase{in: f, ops: ops, conc: conc}, "valid", content, "declared-size-is-a-lie")
+			}
+		}
 	}
 	hostile := func(words ...uint32) []byte {
 		var b []byte
@@ -813,6 +925,29 @@ func compRS(o *out, seed uint64, tier string) {
 		for k := 1; k <= probe.calls && k <= 40; k++ {
 			emit(&rsCase{in: x.f, ops: []string{"WT"}, frag: 0, fault: k, conc: 1}, "fault", x.data, "source-fault")
 			emit(&rsCase{in: x.f, ops: []string{"RA:4096"}, frag: 0, fault: k, conc: 1 + 3*(k%2)}, "fault", x.data, "source-fault")
+		}
+	}
+	// source faults while the payload of a skippable frame is being skipped (the failure is the source's:
+	// it is reported as such, not as a truncated stream), one large read and many small ones
+	{
+		x := frames[0]
+		skip := binary.LittleEndian.AppendUint32(nil, 0x184D2A57)
+		skip = binary.LittleEndian.AppendUint32(skip, 3000)
+		skip = append(skip, r.bytes(3000)...)
+		in := append(skip, x.f...)
+		probe := &source{data: in}
+		var b bytes.Buffer
+		lz4.NewReader(probe).WriteTo(&b)
+		for _, frag := range []int{0, 4} {
+			for k := 1; k <= probe.calls; k++ {
+				if frag == 4 && k > 5 {
+					// (7 bytes per call: calls 3.. all fall into the payload; the model skips the payload in
+					// one step, so later indices would mean different calls to it)
+					break
+				}
+				emit(&rsCase{in: in, ops: []string{"WT"}, frag: frag, fault: k, conc: 1 + 3*(k%2)}, "fault", x.data, "source-fault-inside-skippable-frame")
+				emit(&rsCase{in: in, ops: []string{"RA:4096"}, frag: frag, fault: k, conc: 1}, "fault", x.data, "source-fault-inside-skippable-frame")
+			}
 		}
 	}
 	// scripted reuse: a Reader that has read a whole frame is Reset onto another frame (with and
